@@ -29,7 +29,7 @@ Say(idx, clause) == PrintT(<<"R", idx, clause>>)
 Check == Done =>
   LET o == Data[tid].obs
       allowed == RefOutcomes(cs)
-  IN /\ (\E x \in allowed : x = o) \/ Say(tid, IF o = AlgOutcome /\ SubNamedConfigSelected /\ o.out = "reject" THEN "ref-dev-subconfig-as-alg"
+  IN /\ (\E x \in allowed : x = o) \/ Say(tid, IF o = AlgOutcome /\ SubNamedConfigSelected THEN "ref-dev-subconfig-as-alg"
                                                 ELSE IF o = AlgOutcome /\ MethodParameterNamedConfig THEN "ref-dev-cfgparam-as-alg"
                                                 ELSE IF o = AlgOutcome /\ UnionDefaultDigits /\ o.out = "ok" THEN "ref-dev-uniondefault-as-alg"
                                                 ELSE IF o = AlgOutcome /\ AmbiguousSubOption /\ o.out = "reject" THEN "ref-dev-abbrev-as-alg"
